@@ -19,6 +19,9 @@ Proof. exact I. Qed.
 Lemma post_done (P : node -> Z -> Prop) s r : P s r -> post P (Done s r).
 Proof. intros H. exact H. Qed.
 
+(* the part of the node the timer pass works on: registrations, the id counter, the wake-up tokens *)
+Definition tm_part (n : node) := (n_timers n, n_nextid n, n_wakes n).
+
 Definition minz (nw dl : Z) : Z := if nw >? dl then dl else nw.
 Lemma minz_le_l nw dl : minz nw dl <= nw. Proof. unfold minz. destruct (nw >? dl) eqn:E; lia. Qed.
 Lemma minz_le_r nw dl : minz nw dl <= dl. Proof. unfold minz. destruct (nw >? dl) eqn:E; lia. Qed.
@@ -26,7 +29,7 @@ Lemma minz_le_r nw dl : minz nw dl <= dl. Proof. unfold minz. destruct (nw >? dl
 (* ---------------------------------------------------------------- receive sessions *)
 Lemma rcv_pass_cover P : forall keys now nw n k,
   NoDup keys -> tnodup (n_rcv n) ->
-  (forall n' nw', nw' <= nw -> n_snd n' = n_snd n -> n_timers n' = n_timers n -> same_cfg n n' ->
+  (forall n' nw', nw' <= nw -> n_snd n' = n_snd n -> tm_part n' = tm_part n -> same_cfg n n' ->
      (forall key', ~ In key' keys -> tget (n_rcv n') key' = tget (n_rcv n) key') ->
      (forall key b, In key keys -> tget (n_rcv n') key = Some b -> r_deadline b <> 0 -> nw' <= r_deadline b) ->
      post P (k n' nw')) ->
@@ -66,7 +69,7 @@ Qed.
 
 (* ---------------------------------------------------------------- send sessions *)
 Lemma cts_burst_frame P key now : forall fuel n k,
-  (forall n1, n_rcv n1 = n_rcv n -> n_timers n1 = n_timers n -> same_cfg n n1 ->
+  (forall n1, n_rcv n1 = n_rcv n -> tm_part n1 = tm_part n -> same_cfg n n1 ->
      (forall key', key' <> key -> tget (n_snd n1) key' = tget (n_snd n) key') ->
      (tnodup (n_snd n) -> tnodup (n_snd n1)) -> post P (k n1)) ->
   post P (cts_burst fuel key now n k).
@@ -92,7 +95,7 @@ Qed.
 
 Lemma snd_pass_cover P : forall keys now nw n k,
   NoDup keys -> tnodup (n_snd n) ->
-  (forall n' nw', nw' <= nw -> n_rcv n' = n_rcv n -> n_timers n' = n_timers n -> same_cfg n n' ->
+  (forall n' nw', nw' <= nw -> n_rcv n' = n_rcv n -> tm_part n' = tm_part n -> same_cfg n n' ->
      (forall key', ~ In key' keys -> tget (n_snd n') key' = tget (n_snd n) key') ->
      (forall key b, In key keys -> tget (n_snd n') key = Some b -> s_deadline b <> 0 -> nw' <= s_deadline b) ->
      post P (k n' nw')) ->
@@ -103,7 +106,7 @@ Proof.
   - inversion Hnd as [|? ? Hni Hnd']; subst.
     destruct (tget (n_snd n) key) as [b|] eqn:G; [|apply post_raise].
     (* go on with the rest from a state n1 in which only [key] may differ and the session at [key], if any, is covered by nw1 *)
-    assert (Hnext : forall n1 nw1, nw1 <= nw -> n_rcv n1 = n_rcv n -> n_timers n1 = n_timers n -> same_cfg n n1 ->
+    assert (Hnext : forall n1 nw1, nw1 <= nw -> n_rcv n1 = n_rcv n -> tm_part n1 = tm_part n -> same_cfg n n1 ->
               (forall key', key' <> key -> tget (n_snd n1) key' = tget (n_snd n) key') -> tnodup (n_snd n1) ->
               (forall b1, tget (n_snd n1) key = Some b1 -> s_deadline b1 <> 0 -> nw1 <= s_deadline b1) ->
               post P (snd_pass ks now nw1 n1 k)).
@@ -121,7 +124,7 @@ Proof.
     assert (Hsame : forall nw1, nw1 <= nw -> (s_deadline b <> 0 -> nw1 <= s_deadline b) -> post P (snd_pass ks now nw1 n k)).
     { intros nw1 Hle Hc. apply Hnext; try reflexivity; try assumption; [split; reflexivity|].
       intros b1 Hb1 Hd. rewrite G in Hb1. inversion Hb1; subst. apply Hc. exact Hd. }
-    assert (Hdel : forall n1, n_rcv n1 = n_rcv n -> n_timers n1 = n_timers n -> same_cfg n n1 ->
+    assert (Hdel : forall n1, n_rcv n1 = n_rcv n -> tm_part n1 = tm_part n -> same_cfg n n1 ->
               (forall key', tget (n_snd n1) key' = tget (n_snd n) key') -> tnodup (n_snd n1) ->
               post P (if tmem (n_snd n1) key then snd_pass ks now nw (set_snd n1 (tdel (n_snd n1) key)) k else Raise n1 E_Key)).
     { intros n1 R1 T1 C1 F1 N1. destruct (tmem (n_snd n1) key); [|apply post_raise].
@@ -183,7 +186,7 @@ Qed.
    receive or send session still open — whatever state it is in, whatever the pass did (time-outs, bursts, BAM packets) *)
 Theorem dll_job_never_oversleeps P n now k :
   tnodup (n_rcv n) -> tnodup (n_snd n) ->
-  (forall n' nw', nw' <= now + 5000000 -> n_timers n' = n_timers n -> rcv_covered n' nw' -> snd_covered n' nw' -> post P (k n' nw')) ->
+  (forall n' nw', nw' <= now + 5000000 -> tm_part n' = tm_part n -> rcv_covered n' nw' -> snd_covered n' nw' -> post P (k n' nw')) ->
   post P (dll_job n now k).
 Proof.
   intros Hr Hs Hk. unfold dll_job.
@@ -206,13 +209,13 @@ Qed.
 Corollary dll_job_wakeup_covers_every_deadline n now :
   tnodup (n_rcv n) -> tnodup (n_snd n) ->
   match flat (dll_job n now (fun n' nw' => Done n' nw')) with
-  | (n', _, RDone nw') => nw' <= now + 5000000 /\ n_timers n' = n_timers n /\ rcv_covered n' nw' /\ snd_covered n' nw'
+  | (n', _, RDone nw') => nw' <= now + 5000000 /\ tm_part n' = tm_part n /\ rcv_covered n' nw' /\ snd_covered n' nw'
   | (_, _, RRaise _) => True
   end.
 Proof.
   intros Hr Hs.
   apply (dll_job_never_oversleeps
-           (fun n' nw' => nw' <= now + 5000000 /\ n_timers n' = n_timers n /\ rcv_covered n' nw' /\ snd_covered n' nw') n now
+           (fun n' nw' => nw' <= now + 5000000 /\ tm_part n' = tm_part n /\ rcv_covered n' nw' /\ snd_covered n' nw') n now
            (fun n' nw' => Done n' nw') Hr Hs).
-  intros n' nw' L T R S. apply post_done. repeat split; assumption.
+  intros n' nw' L T R S. apply post_done. repeat split; try assumption.
 Qed.
